@@ -206,6 +206,55 @@ def check_run_arguments():
     return res
 
 
+def check_optional_ambiguous():
+    """an OPTIONAL input given by a short form: exactly one candidate (or a less-nested one) -> wired; none -> the default; several that
+    the rule cannot order -> an error at construction, not silently the default"""
+    import tcv
+
+    tcv.quiet_library()
+    from pathlib import Path
+    from taskchain import Config, Task
+    from taskchain.parameter import InputTaskParameter
+
+    res = Result()
+    for names in RUNARG_SETS + [('g:y',), ('n::y',)]:
+        res.add('evaluations')
+        res.add('transitions')
+        case = {'kind': 'optamb', 'names': list(names)}
+        root = scratch.fresh('c10o')
+        try:
+            by_ns, vals = {}, {}
+            for full in names:
+                ns, g, n = N.parse(full)
+                meta = type('Meta', (), dict({'name': n}, **({'task_group': ':'.join(g)} if g else {})))
+                vals[full] = len(vals) * 10 + 7
+                d = {}
+                exec(f'def run(self) -> int:\n    return {vals[full]}\n', d)
+                by_ns.setdefault('::'.join(ns), []).append(type('P' + ''.join(c for c in full if c.isalnum()), (Task,), {'Meta': meta, 'run': d['run']}))
+            d = {}
+            exec('def run(self) -> int:\n    v = self.input_tasks["x"]\n    return v.value if hasattr(v, "value") else v\n', d)
+            dep = type('Dep', (Task,), {'Meta': type('Meta', (), {'name': 'dep', 'parameters': [InputTaskParameter('x', default=-1)]}), 'run': d['run']})
+            uses = [Config(Path(root) / 'data', name=f'c_{ns}', namespace=ns, data={'tasks': cl}) for ns, cl in sorted(by_ns.items()) if ns]
+            top = Config(Path(root) / 'data', name='top', data={'tasks': by_ns.get('', []) + [dep], 'uses': uses})
+            exp = N.resolve('x', list(names), determine_namespace=False)
+            try:
+                got = ('value', top.chain()['dep'].value)
+            except Exception as e:  # noqa
+                got = ('error', f'{type(e).__name__}: {e}')
+            if exp == N.UNSPECIFIED:
+                continue
+            if exp == N.AMBIGUOUS and got[0] == 'value':
+                res.violations.append(Violation('chain: ambiguous optional input silently replaced by its default (or by one of the candidates)',
+                                                f'tasks {list(names)}, optional input `x` (default -1) of a root-level task: chain built, value {got[1]}', case))
+            elif exp == N.NOTFOUND and got != ('value', -1):
+                res.violations.append(Violation('chain: optional input without any candidate does not take its default', f'tasks {list(names)}: {got}', case))
+            elif exp not in (N.AMBIGUOUS, N.NOTFOUND) and got != ('value', vals[exp]):
+                res.violations.append(Violation('chain: optional input bound to another task than the one its name resolves to', f'tasks {list(names)}: {got}, `x` resolves to {exp}', case))
+        finally:
+            scratch.drop(root)
+    return res
+
+
 def _job(sets):
     import tcv
 
@@ -230,11 +279,14 @@ def run(tier, seed):
         res.merge(r)
     res.merge(check_nested())
     res.merge(check_run_arguments())
+    res.merge(check_optional_ambiguous())
     res.coverage['chain_leg'] = {'name_sets': len(sets), 'universe': len(UNIVERSE), 'queries': len(QUERIES) + 1, 'triples_complete': tier != 'quick'}
     return res
 
 
 def replay(case):
+    if case.get('kind') == 'optamb':
+        return [v for v in check_optional_ambiguous().violations if v.case == case]
     if case.get('kind') == 'runarg':
         return [v for v in check_run_arguments().violations if v.case == case]
     if case.get('kind') == 'nested':
